@@ -14,6 +14,12 @@ Definition probe (e : pexpr) (envs : list (list val)) :=
   let r := normalize (resolve e) in
   ([probe_dialect d_sqlite r; probe_dialect d_generic r], corner e, map (fun env => ship (eval_doc env e)) envs).
 
+(* a std function call (math.*, text.*: an RQ operator that is not produced by ast_expand) applied to operator
+   expressions: the arguments are resolved on their own, the call node itself is not folded by static_eval *)
+Definition probe_call (name : str) (args : list pexpr) :=
+  let r := ROp name (map (fun e => normalize (resolve e)) args) in
+  [probe_dialect d_sqlite r; probe_dialect d_generic r].
+
 (* `derive d = e1 | select {v = e2}`: both expressions are resolved (and folded) on their own; the SQL
    generator then inlines the definition of column d (index 3) where it is referenced.  Only for
    definitions that resolve to a numeric literal or to an operator node (a null / boolean literal behind
